@@ -62,7 +62,7 @@ CHECKS["C03"] = dict(
          "after acceptance -1 is returned only with errno known not to be EAGAIN; from_app counters move only after acceptance; every errno "
          "test sees the errno of the failing call (logging is derived errno-transparent from its save/restore bracket on every run); the "
          "length validated is the length sent (no unguarded narrowing); UX send is one send(2) with MSG_NOSIGNAL|MSG_EOR; and blocking "
-         "xcm_send does not report failure for an accepted message because its wait failed (known finding K3). Not decided: exactly-once "
+         "xcm_send does not report failure for an accepted message because its wait failed (known finding K3). and never offers the caller's buffer to the transport again after it was accepted; Not decided: exactly-once "
          "delivery (needs both endpoints and the schedule).",
     note=TRUSTED + " send(2) on SOCK_SEQPACKET is all-or-nothing; mbuf_set copies into XCM-owned storage.",
     technique="path-sensitive typestate exploration with inlining, errno-source tracking, value-range dataflow",
@@ -86,7 +86,7 @@ CHECKS["C07"] = dict(
          "-1/EPROTO; the set of announced lengths the receiver accepts is decided exactly (the predicate's AST folded over every critical "
          "point with 32-bit wrap-around) and must equal [1, max_msg], which is what the sender's guard establishes at acceptance; every "
          "lower-layer read goes to the mbuf's write cursor with exactly the spare capacity ensured before and asks for exactly the missing "
-         "part of the header/payload; the sticky flag is only ever set; a TLS protocol error drains OpenSSL's per-thread error queue on every "
+         "part of the header/payload; the sticky flag is only ever set and is tested before the sub-socket is used; a TLS protocol error drains OpenSSL's per-thread error queue on every "
          "path. Not decided: crashes inside OpenSSL/c-ares, pointer arithmetic outside the modelled sinks.",
     note=TRUSTED + " The final implication from these premises to 'no out-of-bounds write for any byte stream' (payload_len + 4 <= MBUF_WIRE_MAX, "
          "buffered <= announced) is argued in DESIGN.md section 3/C07, not mechanised.",
@@ -112,7 +112,7 @@ CHECKS["C06"] = dict(
          "discovers the condition; every store of a sticky errno is a constant or an errno captured right after the call observed failing "
          "(errno-source tracking, logging derived transparent); a connect attempt is retried only after its failure reason was recorded; "
          "the closed state is stored only under the documented conditions; end-of-stream concluded from a failed write is reported "
-         "(known finding K5, four sites). Not decided: which call observes a failure first under real timing; the errno the kernel produces.",
+         "(known finding K5, four sites). A read's 0 counts as end-of-stream only if bytes were asked for (zero-capacity receive answered before recv/SSL_read; defect F18 repaired). Not decided: which call observes a failure first under real timing; the errno the kernel produces.",
     note=TRUSTED,
     technique="state-set abstract interpretation with inlining + errno-source tracking + condition classification",
     design="3/C06")
@@ -128,7 +128,7 @@ CHECKS["C13"] = dict(
          "tracker, `sequential`/`happy_eyeballs` all, unknown algorithms are refused, list/count/timeout arguments reach every track unchanged, "
          "happy eyeballs makes one track per family; (R5) resolution failure/overall-timer expiry => ENOENT, attempt-timer expiry => ETIMEDOUT + "
          "abort + next address, EAGAIN only while a track is in progress; (R6) timers are armed with the configured timeouts; (R7) with a local "
-         "address every attempt binds before connect() and a failed bind never reaches connect().",
+         "address every attempt binds before connect() and a failed bind never reaches connect(), and the configured address is handed unchanged, call site by call site, to every attempt track; (R8) the resolver's result count is bounded by the caller's capacity.",
     note=TRUSTED + " Library functions outside escape.RETAINING_EXT are assumed not to keep pointer arguments.",
     technique="escape analysis + feasible-path search in loop SCCs + errno-source tracking + argument-flow/control-dependence checks",
     design="3/C13")
@@ -146,7 +146,7 @@ CHECKS["C11"] = dict(
          "xcm.local_addr dispatch inlined) lies behind the initial-state guard and the setter has an EACCES exit; accept tests the three connect-only "
          "attributes before accept4(); (R6) set_attrs after init and before connect/server/accept, defaults before the user's map; (R7) xcm.service "
          "succeeds only on an equal edge of a comparison with `any` or the actual service, else EINVAL; xcm.blocking is xcm_set_blocking; (R8) scope "
-         "inheritance at init. Not decided: that the kernel honours setsockopt, the actual source address, behaviour in every life-cycle state at run time.",
+         "inheritance at init. (R9) accepted TLS sockets inherit every TLS policy attribute unconditionally. Not decided: that the kernel honours setsockopt, the actual source address, behaviour in every life-cycle state at run time.",
     note=TRUSTED,
     technique="field-coverage agreement + path exploration with guard facts and inlining + argument-flow checks",
     design="3/C11")
@@ -180,7 +180,7 @@ CHECKS["C14"] = dict(
          "is_sensitive() and leave no value on the sensitive edge, and the filter names every attribute whose setter stores its value as sensitive; "
          "(R6) nothing reachable from ctl_process (function pointers resolved) is an attribute setter, a transport data/lifecycle op or a store to "
          "connection state, and ctl_process is errno-transparent (derived), with a positive control; (R7) close passes owner=true which reaches "
-         "unlink. Not decided: equality of replies with in-process values (the 512-byte value field makes large attributes unrepresentable by "
+         "unlink. (R3 also) the attribute name is client data: every tag-asserting accessor of the attribute tree reachable from ctl_process is called only under the matching tag test. Not decided: equality of replies with in-process values (the 512-byte value field makes large attributes unrepresentable by "
          "design - they are left out), concurrency of sessions at run time.",
     note=TRUSTED + " Two table entries of R2 rest on premises re-checked on every run (element copy into the session table; no writer of num_clients reachable from process_client).",
     technique="typestate exploration + bounded-write dataflow with record invariants + enum/table agreement + call-graph reachability",
@@ -199,7 +199,7 @@ CHECKS["C08"] = dict(
          "unlink, shutdown or write; (R7) the result of a resource-creating call never decides an assertion and a possibly failed descriptor is never handed "
          "unchecked to a function that asserts it valid (known findings K2: two sites); (R8) the UXF path is recorded only after a successful bind and unlinked "
          "by the owner's close; (R9) every object a function obtains from a creator in a 48-entry creator/releaser table is released, stored, returned or handed "
-         "over on every path; (R10) no data-path op is reachable on a socket between init and connect/server/accept (known finding K6). Not decided: equality of "
+         "over on every path; (R10) no data-path op is reachable on a socket between init and connect/server/accept (known finding K6). (R11) teardown loops over a counted collection run until it is empty (no index advancing against a count the body decrements). Not decided: equality of "
          "the heap and descriptor table before/after (R3/R9 are coverage and per-function ownership, not a leak proof); behaviour of a forked child at run time.",
     note=TRUSTED + " The kernel drops a descriptor's epoll registrations when it is closed; registration tables (xpoll) keep descriptor numbers without owning them.",
     technique="typestate abstract interpretation with inlining and parameter binding + ownership dataflow + context-sensitive call-graph reachability",
@@ -218,7 +218,7 @@ CHECKS["C09"] = dict(
          "from what the policy functions read) is copied by the inheritance function, which init calls; (R6) no success path of finalize_tls_conf / "
          "enable_hostname_validation is consistent with one of the six documented invalid combinations, refusals say EINVAL, and finalize precedes the "
          "context lookup in connect, server and accept; (R7) load_ssl_ctx installs trusted CAs/CRLs iff given and allows partial chains only without CRLs; "
-         "hostname flags NO_WILDCARDS|ALWAYS_CHECK_SUBJECT. Not decided: the outcome matrix against generated certificates (that is the behaviour), "
+         "hostname flags NO_WILDCARDS|ALWAYS_CHECK_SUBJECT. (R5) every policy field is inherited unconditionally (a copy may depend on tests of the same field only); (R8) names are appended to the socket's peer-name list only where the list was absent: explicit tls.peer_names are the whole set. Not decided: the outcome matrix against generated certificates (that is the behaviour), "
          "OpenSSL's chain building, extended key usage checks (inside OpenSSL).",
     note=TRUSTED + " Numeric values of the OpenSSL flag macros are taken from its stable ABI.",
     technique="path exploration + exact folding of the policy function over all inputs + control dependence / must-pass + field coverage + path-fact analysis",
@@ -247,7 +247,7 @@ CHECKS["C02"] = dict(
          "(R2) every SSL object is switched to PARTIAL_WRITE|ACCEPT_MOVING_WRITE_BUFFER between SSL_new and the handshake; (R3) no send op answers -1/EAGAIN on "
          "a path where a callee that captures its input on failure (effect table: SSL_write) was given the caller's bytes - known finding K4, replayed; (R5) the "
          "custom BIO clears its retry flags before each lower-layer call, maps EAGAIN to the retry flag of its direction and a 0 read to EOF; (R6) the blocking "
-         "byte-stream loop recomputes pointer and length from the progress counter. Counters are C17's.",
+         "byte-stream loop recomputes pointer and length from the progress counter. (R7) SSL_write is reached only with a length >= 1 (a zero-sized send is answered before it reaches OpenSSL). Counters are C17's.",
     note=TRUSTED + " Effect table: send(2) takes nothing when it fails; SSL_write returning <= 0 with WANT_* keeps the record for the retry.",
     technique="argument-identity checks + path exploration with a capture-effect table and errno facts + typestate + control dependence",
     design="3/C02")
@@ -263,8 +263,8 @@ CHECKS["C04"] = dict(
          "bell while RECEIVABLE may be awaited without having consulted SSL_has_pending; (R6) WANT_READ/WANT_WRITE store RECEIVABLE/SENDABLE as ssl_wants and "
          "the handshaking state hands ssl_wants to the sub-socket; every OpenSSL I/O site passes its result to process_ssl_event; (R7) connect() is issued only "
          "with the descriptor registered for EPOLLOUT, EINPROGRESS and a delayed track arm a timer; (R8) the resolver's entry points end in update_xpoll and a "
-         "finished query arms a zero timer; (R9) the blocking forms poll the socket's own descriptor for POLLIN after await(). Not decided: boundedness in "
-         "time; completeness of the 40-line ssl_condition/ssl_wants decision table (needs a model of OpenSSL).",
+         "finished query arms a zero timer; (R9) the blocking forms poll the socket's own descriptor for POLLIN after await(). (R10) the btls connection update helper is folded exactly over its 48 ready-state inputs (awaited condition x direction of the last incomplete OpenSSL call x what it wanted x SSL_has_pending): every row rings the bell or stores and updates the sub-socket's condition, decrypted bytes ring when RECEIVABLE is awaited, an awaited direction OpenSSL was not asked about is watched on the sub-socket; (R11) send/receive/finish of btcp and btls call the state-advancing helper before the first test of the connection state. Not decided: boundedness in "
+         "time; what OpenSSL does with a wake-up (trusted).",
     note=TRUSTED,
     technique="must-follow / must-pass path rules with inlining + switch-case typestate + control dependence + constant-flag checks",
     design="3/C04")
@@ -274,7 +274,7 @@ CHECKS["C16"] = dict(
          "(R2) the always-readable eventfd is registered with no interest, gets EPOLLIN exactly when a bell in use rings, and every change of a bell is followed "
          "by that re-evaluation; (R3) the condition-to-event mappings of the leaf transports are decided exactly - ux's conn_event/server_event folded over all "
          "8 condition values, btcp's flags or-ed only under the matching condition bit - and btls in state ready with nothing awaited neither rings its bell nor "
-         "asks the sub-socket for anything; (R4) every expired edge of timer_mgr_has_expired is followed on all paths by ack/cancel/reschedule of that timer; "
+         "asks the sub-socket for anything, and the same helper folded exactly over its 48 ready-state inputs never hands down more interest than is awaited or OpenSSL wants; (R4) every expired edge of timer_mgr_has_expired is followed on all paths by ack/cancel/reschedule of that timer; "
          "(R5) a successful resolver result and a handed-over connected descriptor are deregistered from the epoll set.",
     note=TRUSTED,
     technique="who-may-write queries + control dependence / must-follow + exact folding of mapping functions + path exploration",
